@@ -131,7 +131,7 @@ def case(ctx, rng, idx, state):
             for q in tB.results:
                 b = tB.results[q].data
                 sc = max(np.abs(b).max(), np.abs(tT.results[q].data).max())
-                ctx.close(f"irreducible_tabulation!=full_grid:{q}", tA.results[q].data, b, rtol=1e-7, scale=sc, what=f"tab {q}", witness=wit)
+                ctx.close(f"irreducible_tabulation!=full_grid:{q}", tA.results[q].data, b, rtol=1e-6, scale=sc, what=f"tab {q}", witness=wit)
             continue
         for (lab, a, _, _), (_, b, _, _), (_, t, _, _) in zip(result_arrays(rA.results[name]), result_arrays(rB.results[name]), result_arrays(rT.results[name])):
             sc = max(float(np.abs(t).max()), float(np.abs(b).max()))
@@ -150,7 +150,7 @@ def case(ctx, rng, idx, state):
                 # dependent inside an exactly degenerate multiplet (Kramers pairs at time-reversal invariant grid points, symmetry-enforced
                 # crossings) - one mechanism for the whole structural class, so that any other failure of the same calculators is still new
                 mech = "irreducible+symmetrised!=full_unsymmetrised:band-diagonal_velocity(delE_K)_at_degenerate_grid_points"
-            ctx.close(mech, a, b, rtol=1e-7, scale=sc, what=f"{name}{lab}", witness=wit)
+            ctx.close(mech, a, b, rtol=1e-6, scale=sc, what=f"{name}{lab}", witness=wit)
             ctx.count("calculators_compared")
             ctx.nontrivial((sname, spinful, tuple(div.tolist()), tuple(fft.tolist()), name, lab))
     ctx.count(f"group_order_{'large' if pg.size >= 16 else 'small'}")
